@@ -29,7 +29,10 @@ EXPLANATION = (
     "orderings of the same network silently permutes the update functions. (S) decisions are taken on BDDs, not on the "
     "way a formula is written: nowhere in the package is the syntax tree of an update function or expression inspected "
     "(as_var / is_not / as_binary / support_variables ...); every function that reads an update function hands it to the "
-    "symbolic context or to the BDD-based restriction. NOT decided and not claimed: isomorphism of the diagrams of "
+    "symbolic context or to the BDD-based restriction. (I) one meaning for free inputs: a variable without update "
+    "function is an input that keeps its value for the Petri net (no transition) but an unknown *constant* for AEON's "
+    "symbolic graph (it may flip during reachability); cleanup_network, through which every network of a diagram passes, "
+    "therefore gives every such variable the identity function, on the object it returns, on every path. NOT decided and not claimed: isomorphism of the diagrams of "
     "renamed / reordered / re-encoded / re-formatted networks (these compare run-time results of transformed inputs)."
 )
 ASSUMPTIONS = [
@@ -44,6 +47,8 @@ def run(ck: Check) -> None:
     p(ck)
     o(ck)
     s_(ck)
+    i_(ck)
+    ck.floor("I", 3)
     ck.floor("S", 3)
     ck.floor("R", 1)
     ck.floor("U", 1)
@@ -298,6 +303,86 @@ def s_(ck: Check) -> None:
                       key=f"update function read in {fm.f.name}")
     if sites == 0:
         raise AnalysisError("anchor vanished: no function reads update functions")
+
+
+def i_(ck: Check) -> None:
+    prog = ck.prog
+    fm = prog.fm("biobalm.interaction_graph_utils", "cleanup_network")
+    f = fm.f
+    from .c13 import _within, _tbranch
+    sets = [c for c in own_walk(f.node) if isinstance(c, ast.Call) and isinstance(c.func, ast.Attribute)
+            and c.func.attr == "set_update_function" and len(c.args) == 2]
+    probs = []
+    okc = []
+    for c in sets:
+        X = text(c.func.value)
+        cn = fm.cfgn(c)
+        lps = [l for l in fm.cfg.enclosing_loops(cn) if isinstance(l, ast.For)]
+        if not lps:
+            continue
+        lp = lps[0]
+        it = lp.iter
+        while isinstance(it, ast.Call) and callee_name(it) in ("sorted", "list", "tuple") and len(it.args) == 1:
+            it = it.args[0]
+        v = text(lp.target)
+        over_inputs = isinstance(it, ast.Call) and callee_name(it) == "implicit_parameters" and text(it.func.value) == X
+        over_all = isinstance(it, ast.Call) and callee_name(it) in ("variables", "variable_names") and text(it.func.value) == X
+        if not (over_inputs or over_all) or text(c.args[0]) != v:
+            continue
+        fn = fm.deref(c.args[1], cn)
+        ident = text(fn) in (f"{X}.get_variable_name({v})", v) or (
+            isinstance(fn, ast.Call) and callee_name(fn) == "mk_var" and text(fn.args[-1]) == v)
+        if not ident:
+            probs.append(f"line {c.lineno}: a free input gets `{text(fn)[:40]}`, not its own identity function")
+            continue
+        hdr = fm.cfg.loop_header[lp]
+        skipped = hdr.id in _within(fm, lp, _tbranch(fm, lp), {cn.id})
+        if skipped and over_inputs:
+            probs.append(f"line {c.lineno}: an iteration can pass a free input without giving it a function")
+            continue
+        if over_all:
+            # only the function-less variables may be touched
+            pc = fm.pc(cn)
+            g_ = logic.B(f"none:{X}.get_update_function({v})")
+            if g_[1] not in logic.atoms(pc) or not logic.implies(pc, g_):
+                probs.append(f"line {c.lineno}: update functions are overwritten for variables that have one")
+                continue
+        # the normalised object is what the function returns
+        rets = [r for r in own_walk(f.node) if isinstance(r, ast.Return) and r.value is not None]
+        for r in rets:
+            rv, rat = fm.deref_at(r.value, fm.cfgn(r))
+            base = rv
+            while isinstance(base, ast.Call) and isinstance(base.func, ast.Attribute) and base.func.attr in ("infer_valid_graph", "copy"):
+                base = base.func.value
+            reach_ = fm.cfg.reach_avoiding(fm.cfg.entry, [hdr])
+            if text(base) != X:
+                probs.append(f"line {r.lineno}: `{text(r.value)[:40]}` is returned, not the network whose inputs were normalised")
+            elif fm.cfgn(r).id in reach_:
+                probs.append(f"line {r.lineno}: a return is reached without normalising the free inputs")
+        okc.append(c)
+    if not okc and not probs:
+        probs.append("variables without an update function (free inputs, expressible in .aeon/.sbml) are handed on as they "
+                     "are: for the Petri net such a variable keeps its value, for AsynchronousGraph it is an unknown constant "
+                     "that may flip during symbolic reachability and simulation, so attractor queries on a node that leaves "
+                     "the input open differ from those of the same network written with `x, x` (seeds merged or lost)")
+    ck.ob("I", fm, okc[0] if okc else f.node, not probs, "; ".join(sorted(set(probs))) if probs else
+          "every variable without update function gets the identity function on the returned network", key="free inputs = identity")
+    # every network of a diagram goes through cleanup_network
+    n_ = 0
+    for g in prog.models():
+        if g.f.cls != "SuccessionDiagram":
+            continue
+        for a in own_walk(g.f.node):
+            tgs = a.targets if isinstance(a, ast.Assign) else [a.target] if isinstance(a, ast.AnnAssign) and a.value is not None else []
+            if any(text(t) == "self.network" for t in tgs):
+                n_ += 1
+                v_ = a.value
+                ok_ = isinstance(v_, ast.Call) and callee_name(v_) == "cleanup_network"
+                ck.ob("I", g, a, ok_, "self.network = cleanup_network(...)" if ok_ else
+                      f"`{text(a)[:60]}`: the diagram's network does not pass through cleanup_network (free inputs keep AEON's "
+                      f"parameter semantics)", key=f"network of the diagram in {g.f.name}")
+    if n_ == 0:
+        raise AnalysisError("anchor vanished: assignment of self.network")
 
 
 def o(ck: Check) -> None:
